@@ -85,6 +85,7 @@ type Cell struct {
 	Layout  int
 	Uris    bool // uri only: the entries are given inline (`uris:`), not in a file
 	YAML    bool // construct through the plugin registry from a YAML-shaped config map instead of NewProvider
+	Pre     bool    // the context is already cancelled when Run is called
 	FH      []HdrAt // headers declared by the source, in order
 	CH      []Hdr   // the `headers:` option, in order
 	Tick    time.Duration
@@ -641,6 +642,9 @@ func runOnce(c Cell) Obs {
 	}
 	ctx, cancel := context.WithCancel(context.Background())
 	defer cancel()
+	if c.Pre {
+		cancel()
+	}
 
 	var events atomic.Int64 // deliveries + consumer exit + run return
 	var mu sync.Mutex
